@@ -11,6 +11,12 @@
     Message part (x/devgas/v1/keeper/msg_server.go): RegisterFeeShare / UpdateFeeShare /
       CancelFeeShare with the admin / creator / factory rules, executed in order; any failure
       reverts all message effects but not the ante effects.
+    Parameters (x/devgas/v1/types/params.go, keeper/params.go, genesis.go): the state holds the
+      params AS SET by the last accepted MsgUpdateParams / genesis ([s_params], what the property
+      talks about) next to the stored item ([s_store]); every reader (ante handler, the three
+      registry handlers) goes through Keeper.GetParams = ModuleParams.Sanitize of the stored item,
+      InitGenesis stores Sanitize of the genesis params, UpdateParams stores the request as is.
+      What Sanitize rewrites is a generated fact ([e_san], [e_defaults]).
     No proofs in this file. *)
 From Coq Require Import ZArith List Bool Arith.
 Import ListNotations.
@@ -25,6 +31,56 @@ Definition coins := list (denom * Z).
 
 Record params := { p_enabled : bool; p_share : Z (* raw LegacyDec *); p_allowed : list denom }.
 
+Definition is_nil {A} (l : list A) : bool := match l with [] => true | _ => false end.
+
+(** ModuleParams.Sanitize as a list of guarded rewrites, in source order (generated fact):
+    "if <cond> { <fields> = their defaults [; return] }".  [sr_on_copy]: the condition reads the
+    working copy (already rewritten by earlier rules) rather than the receiver. *)
+Inductive pcond :=
+| PcTrue
+| PcNot (c : pcond)
+| PcAnd (a b : pcond)
+| PcOr (a b : pcond)
+| PcEnabled            (* .EnableFeeShare *)
+| PcShareZero          (* .DeveloperShares.IsZero() *)
+| PcShareNil           (* .DeveloperShares.IsNil(): Validate refuses nil, a stored value is never nil *)
+| PcAllowedEmpty       (* len(.AllowedDenoms) == 0 *)
+| PcUnknown.           (* a condition the extractor does not understand *)
+
+Inductive pfield := FEnabled | FShare | FAllowed.
+
+Record san_rule := { sr_cond : pcond; sr_on_copy : bool; sr_set : list pfield; sr_stop : bool }.
+
+Fixpoint eval_pcond (c : pcond) (p : params) : bool :=
+  match c with
+  | PcTrue => true
+  | PcNot a => negb (eval_pcond a p)
+  | PcAnd a b => eval_pcond a p && eval_pcond b p
+  | PcOr a b => eval_pcond a p || eval_pcond b p
+  | PcEnabled => p_enabled p
+  | PcShareZero => Z.eqb (p_share p) 0
+  | PcShareNil => false
+  | PcAllowedEmpty => is_nil (p_allowed p)
+  | PcUnknown => false
+  end.
+
+Definition set_default (D : params) (q : params) (f : pfield) : params :=
+  match f with
+  | FEnabled => {| p_enabled := p_enabled D; p_share := p_share q; p_allowed := p_allowed q |}
+  | FShare => {| p_enabled := p_enabled q; p_share := p_share D; p_allowed := p_allowed q |}
+  | FAllowed => {| p_enabled := p_enabled q; p_share := p_share q; p_allowed := p_allowed D |}
+  end.
+
+Fixpoint apply_rules (D : params) (rs : list san_rule) (orig cur : params) : params :=
+  match rs with
+  | [] => cur
+  | r :: rest =>
+      if eval_pcond (sr_cond r) (if sr_on_copy r then cur else orig)
+      then let cur' := fold_left (set_default D) (sr_set r) cur in
+           if sr_stop r then cur' else apply_rules D rest orig cur'
+      else apply_rules D rest orig cur
+  end.
+
 (** wasm ContractInfo as far as x/devgas reads it; [ci_owner] only tells the model whether an
     execute by a given sender succeeds ([None]: anyone — hello_world_counter; [Some o]: reflect). *)
 Record cinfo := { ci_creator : addr; ci_admin : option addr; ci_owner : option addr }.
@@ -35,7 +91,12 @@ Definition registry := list (addr * share_entry).
 
 (** [e_allowed_once]: getAllowedFees stops at the first AllowedDenoms entry matching a fee coin
     (generated fact; before the fix: commit every matching entry added the coin again) *)
-Record env := { e_collector : addr; e_gov : addr; e_blocked : list addr; e_allowed_once : bool }.
+Record env := { e_collector : addr; e_gov : addr; e_blocked : list addr; e_allowed_once : bool;
+                e_defaults : params        (* types.DefaultParams() — generated fact *);
+                e_san : list san_rule      (* what ModuleParams.Sanitize rewrites — generated fact *) }.
+
+(** ModuleParams.Sanitize *)
+Definition sanitize (E : env) (p : params) : params := apply_rules (e_defaults E) (e_san E) p p.
 
 Fixpoint assoc {V} (l : list (addr * V)) (k : addr) : option V :=
   match l with
@@ -133,8 +194,6 @@ Fixpoint pay_all (E : env) (b : bank) (rc : list addr) (split : coins) : option 
            | Some b' => pay_all E b' r split
            end
   end.
-
-Definition is_nil {A} (l : list A) : bool := match l with [] => true | _ => false end.
 
 (** DeductFeeDecorator followed by DevGasPayoutDecorator; [None] = the ante handler fails *)
 Definition ante (E : env) (p : params) (R : registry) (b : bank) (t : txin) : option bank :=
@@ -254,26 +313,34 @@ Fixpoint run_msgs (E : env) (p : params) (W : wasm) (s : addr) (R : registry) (m
 
 (* -------------------------------------------------------------------- state and steps *)
 
-Record state := { s_params : params; s_wasm : wasm; s_reg : registry; s_bank : bank }.
+(** [s_params]: the parameters as set by the last accepted MsgUpdateParams / genesis (never read by
+    the code — it is what the property is stated against); [s_store]: the stored ModuleParams item *)
+Record state := { s_params : params; s_store : params; s_wasm : wasm; s_reg : registry; s_bank : bank }.
+
+(** Keeper.GetParams: the stored item through Sanitize — the only way the ante handler and the
+    registry handlers see the parameters *)
+Definition read_params (E : env) (st : state) : params := sanitize E (s_store st).
 
 Record txout := { x_class : nat (* 0 delivered, 1 rejected by the ante handler, 2 messages failed *);
                   x_err : nat }.
 
 Definition step_tx (E : env) (st : state) (t : txin) : state * txout :=
-  match ante E (s_params st) (s_reg st) (s_bank st) t with
+  let p := read_params E st in
+  match ante E p (s_reg st) (s_bank st) t with
   | None => (st, {| x_class := 1; x_err := E_FUNDS |})
   | Some b' =>
-      match run_msgs E (s_params st) (s_wasm st) (t_signer t) (s_reg st) (t_msgs t) with
-      | inl R' => ({| s_params := s_params st; s_wasm := s_wasm st; s_reg := R'; s_bank := b' |},
+      match run_msgs E p (s_wasm st) (t_signer t) (s_reg st) (t_msgs t) with
+      | inl R' => ({| s_params := s_params st; s_store := s_store st; s_wasm := s_wasm st; s_reg := R'; s_bank := b' |},
                    {| x_class := 0; x_err := 0 |})
-      | inr e => ({| s_params := s_params st; s_wasm := s_wasm st; s_reg := s_reg st; s_bank := b' |},
+      | inr e => ({| s_params := s_params st; s_store := s_store st; s_wasm := s_wasm st; s_reg := s_reg st; s_bank := b' |},
                   {| x_class := 2; x_err := e |})
       end
   end.
 
 (** environment operations between transactions *)
 Inductive envop :=
-| SetParams (p : params)
+| SetParams (p : params)      (* MsgUpdateParams by the gov authority: Validate, then stored as is *)
+| Genesis (p : params)        (* InitGenesis: Validate, then Sanitize(p) stored *)
 | SetAdmin (c : addr) (a : option addr)
 | Resync (b : bank).          (* block boundary: balances re-read (distribution sweeps the collector) *)
 
@@ -287,17 +354,22 @@ Fixpoint wasm_set_admin (W : wasm) (c : addr) (a : option addr) : wasm :=
   end.
 
 (** ModuleParams.Validate as used by the UpdateParams handler: 0 ≤ DeveloperShares ≤ 1
-    (AllowedDenoms entries only have to be non-blank; repeats are accepted) *)
+    (AllowedDenoms entries only have to be non-blank; repeats are accepted).  GenesisState.Validate
+    ends in the same check. *)
 Definition params_valid (p : params) : bool := Z.leb 0 (p_share p) && Z.leb (p_share p) PREC.
 
-Definition step_env (st : state) (o : envop) : state :=
+Definition step_env (E : env) (st : state) (o : envop) : state :=
   match o with
   | SetParams p =>
       if params_valid p
-      then {| s_params := p; s_wasm := s_wasm st; s_reg := s_reg st; s_bank := s_bank st |}
+      then {| s_params := p; s_store := p; s_wasm := s_wasm st; s_reg := s_reg st; s_bank := s_bank st |}
       else st
-  | SetAdmin c a => {| s_params := s_params st; s_wasm := wasm_set_admin (s_wasm st) c a; s_reg := s_reg st; s_bank := s_bank st |}
-  | Resync b => {| s_params := s_params st; s_wasm := s_wasm st; s_reg := s_reg st; s_bank := b |}
+  | Genesis p =>
+      if params_valid p
+      then {| s_params := p; s_store := sanitize E p; s_wasm := s_wasm st; s_reg := s_reg st; s_bank := s_bank st |}
+      else st
+  | SetAdmin c a => {| s_params := s_params st; s_store := s_store st; s_wasm := wasm_set_admin (s_wasm st) c a; s_reg := s_reg st; s_bank := s_bank st |}
+  | Resync b => {| s_params := s_params st; s_store := s_store st; s_wasm := s_wasm st; s_reg := s_reg st; s_bank := b |}
   end.
 
 Inductive event := EvTx (t : txin) | EvEnv (o : envop).
@@ -305,7 +377,7 @@ Inductive event := EvTx (t : txin) | EvEnv (o : envop).
 Definition step (E : env) (st : state) (ev : event) : state :=
   match ev with
   | EvTx t => fst (step_tx E st t)
-  | EvEnv o => step_env st o
+  | EvEnv o => step_env E st o
   end.
 
 (** all transaction transitions (state before, tx, state after, outcome) of a history *)
@@ -313,7 +385,7 @@ Fixpoint transitions (E : env) (st : state) (evs : list event) : list (state * t
   match evs with
   | [] => []
   | EvTx t :: r => let '(st', o) := step_tx E st t in (st, t, st', o) :: transitions E st' r
-  | EvEnv o :: r => transitions E (step_env st o) r
+  | EvEnv o :: r => transitions E (step_env E st o) r
   end.
 
 Definition default_params : params :=
